@@ -114,7 +114,38 @@ func verifBodyC15(s *verifEngC, gc *check.C) {
 
 	nops := 5 + c.Draw("nops", 30)
 	for i := 0; i < nops && len(c.Violations) == 0; i++ {
-		switch c.Draw("op", 7) {
+		switch c.Draw("op", 8) {
+		case 7: // an auto-refresh begins: holds on a snap that has no update any more may be forgotten
+			// (at most one such snap per pass: with two, whether pruneGating saves what it
+			// pruned depends on Go's map order - its "changed" flag is overwritten per
+			// snap - which would make the run irreproducible; either outcome is allowed
+			// by the statement, so what is observed afterwards decides)
+			cands := map[string]*snapstate.RefreshCandidate{}
+			without := ""
+			if c.Draw("one-snap-without-update", 3) == 2 {
+				without = snaps[c.Draw("snap-without-update", len(snaps))]
+			}
+			for _, n := range snaps {
+				if n != without {
+					cands[n] = &snapstate.RefreshCandidate{}
+				}
+			}
+			err := snapstate.PruneGating(st, cands)
+			c.Logf("t=%v auto-refresh begins, no update any more for %q err=%v", time.Now().Sub(start), without, err != nil)
+			c.Count("probe:auto-refresh-begins-with-holds-in-place")
+			if without != "" {
+				held, _ := snapstate.HeldSnaps(st, snapstate.HoldAutoRefresh)
+				still := map[string]bool{}
+				for _, h := range held[without] {
+					still[h] = true
+				}
+				for k := range episode {
+					if k.held == without && !still[k.holder] {
+						delete(episode, k)
+						c.Count("probe:hold-forgotten-with-the-update")
+					}
+				}
+			}
 		case 0, 1, 2: // a snap holds refreshes of some snaps
 			holder := snaps[2+c.Draw("holder", 2)]
 			var affecting []string
@@ -126,7 +157,12 @@ func verifBodyC15(s *verifEngC, gc *check.C) {
 			if len(affecting) == 0 {
 				affecting = []string{snaps[c.Draw("affects-one", len(snaps))]}
 			}
-			dur := []time.Duration{0, time.Hour, 24 * time.Hour, 72 * time.Hour, 100 * day}[c.Draw("hold-duration", 5)]
+			// the hook and snapctl paths always ask for the default (maximum) duration,
+			// which is what the statement is about; an explicit shorter duration asked
+			// late in an episode is not capped by the time left (only refused above 48h)
+			// and would carry the hold past the bound - callers of HoldRefresh with
+			// explicit durations are outside the property
+			dur := time.Duration(0)
 			now := time.Now()
 			// would any bound already be reached for one of the affected snaps?
 			boundReached := ""
